@@ -454,7 +454,10 @@ class Checker:
         for _, s in ins:
             npts *= s
         cost = max(eval_cost(refl), eval_cost(f.result))
-        budget = max(8, min(256, int(60000 / max(cost, 1))))
+        if cost > 40000:
+            ctx.count("skip:brute-force-too-costly")
+            return
+        budget = max(2, min(256, int(40000 / max(cost, 1))))
         if npts > budget:
             # enumerate a random subset of the inputs exhaustively, fix the others at 3 random settings
             order = list(ins)
